@@ -43,6 +43,79 @@ def unparse_seed(file: str) -> Seed:
     return Seed(f"unparse:{file}", "neutral", file)
 
 
+RENAME = "\0rename-locals"
+
+
+def rename_seed(file: str) -> Seed:
+    """Neutral seed: every local variable of every function of the file gets another name (parameters, attributes, globals and
+    everything else that is part of an interface keep theirs).  A rule that fires on it is bound to a spelling, not to the program."""
+    return Seed(f"rename-locals:{file}", "neutral", file, old=RENAME)
+
+
+def alpha_rename(src: str, suffix: str = "_rn") -> str:
+    tree = ast.parse(src)
+    taken = {n.id for n in ast.walk(tree) if isinstance(n, ast.Name)}
+
+    def params_of(fn) -> set[str]:
+        a = fn.args
+        out = {x.arg for x in a.posonlyargs + a.args + a.kwonlyargs}
+        if a.vararg:
+            out.add(a.vararg.arg)
+        if a.kwarg:
+            out.add(a.kwarg.arg)
+        return out
+
+    def do_function(fn) -> None:
+        excl: set[str] = set()
+        stores: set[str] = set()
+        comp_targets: set[int] = set()
+        for n in ast.walk(fn):
+            if isinstance(n, (ast.FunctionDef, ast.AsyncFunctionDef, ast.Lambda)):
+                excl |= params_of(n)
+                if not isinstance(n, ast.Lambda):
+                    excl.add(n.name)
+            elif isinstance(n, ast.ClassDef):
+                excl.add(n.name)
+            elif isinstance(n, ast.Global):
+                excl |= set(n.names)
+            elif isinstance(n, ast.ExceptHandler) and n.name:
+                excl.add(n.name)
+            elif isinstance(n, (ast.Import, ast.ImportFrom)):
+                excl |= {(a.asname or a.name.split(".")[0]) for a in n.names}
+            elif isinstance(n, ast.comprehension):
+                comp_targets |= {id(t) for t in ast.walk(n.target)}
+            elif isinstance(n, (ast.MatchAs, ast.MatchStar)) and n.name:
+                excl.add(n.name)
+        for n in ast.walk(fn):
+            if isinstance(n, ast.Name) and isinstance(n.ctx, ast.Store) and id(n) not in comp_targets:
+                stores.add(n.id)
+        # new names share nothing with the old ones (no common prefix a rule could match by accident)
+        ren = {}
+        k = 0
+        for v in sorted(stores - excl):
+            if v.startswith("__") or v == "_":
+                continue
+            k += 1
+            while f"zq{k}{suffix}" in taken:
+                k += 1
+            ren[v] = f"zq{k}{suffix}"
+        for n in ast.walk(fn):
+            if isinstance(n, ast.Name) and n.id in ren:
+                n.id = ren[n.id]
+            elif isinstance(n, ast.Nonlocal):
+                n.names = [ren.get(x, x) for x in n.names]
+
+    def visit(node) -> None:
+        for ch in ast.iter_child_nodes(node):
+            if isinstance(ch, (ast.FunctionDef, ast.AsyncFunctionDef)):
+                do_function(ch)  # nested functions are renamed together with their outermost function
+            else:
+                visit(ch)
+
+    visit(tree)
+    return ast.unparse(tree) + "\n"
+
+
 def _apply(repo_root, seed: Seed) -> dict[str, str] | None:
     edits = [(seed.file, seed.old, seed.new, seed.count)] + [(*e, 1) if len(e) == 3 else e for e in (seed.edits or [])]
     out: dict[str, str] = {}
@@ -53,6 +126,9 @@ def _apply(repo_root, seed: Seed) -> dict[str, str] | None:
         src = out.get(file) or p.read_text(encoding="utf-8")
         if old is None:  # unparse round trip
             out[file] = ast.unparse(ast.parse(src)) + "\n"
+            continue
+        if old == RENAME:
+            out[file] = alpha_rename(src)
             continue
         if src.count(old) != count:
             return None
